@@ -44,6 +44,7 @@ TCopyUninit == /\ Is("CopyUninit") /\ Step
                /\ Must(usr2 = 1 /\ terms = 1, "main thread released exactly once")
                /\ Must(eof /\ Len(written) = nread /\ inSlots = TotIn /\ outSlots = TotOut, "everything written, all slots returned")
                /\ Must(Ev.eof = 1 /\ Ev.os = TotOut /\ Ev.is = TotIn, "logged end state")
+               /\ Must(("heapk" \in DOMAIN Ev) => Ev.heapk <= 64, "the heap is back to its size at the start of the run")
                /\ UNCHANGED cvars /\ Keep
 Next == TReset \/ TStart \/ TCopyInit \/ TSrcTake \/ TCopyAvail \/ TSinkPush \/ TSinkPop \/ TSrcRel \/ TCopyWritten
         \/ TEof \/ TCopyTerm \/ TSinkFinish \/ TSinkExit \/ TSrcStop \/ TCopyUninit
